@@ -115,7 +115,7 @@ reference conversion, predictions equal RefScore, every proper prefix is rejecte
         .into_iter(),
         |c: &KyteaCase| test_file(&c.file, &c.texts, true).map(|mut i| { i.nontrivial = true; i }),
     );
-    let n = rep.n(1500, 15000);
+    let n = rep.n(1500, 100000);
     rep.run_prop(
         "generated-files",
         "structured KyTea models written by the harness's own writer (validated byte-identically \
